@@ -47,3 +47,60 @@ package interp
 //@   let op: n.action == aNeg || n.action == aBitNot || n.action == aNot || n.action == aPos
 //@   ensures into-interface-variable-keeps-operand-type: err == nil && op && !n.rval.IsValid() && old(n.child[0].typ) != nil && n.anc.kind == assignStmt && n.anc.action == aAssign && n.anc.nright == 1 && isInterface(old(n.anc.child[childPos(n)-n.anc.nright].typ)) ==> n.typ == old(n.child[0].typ)
 //@   ensures into-interface-result-keeps-operand-type: err == nil && op && !n.rval.IsValid() && old(n.child[0].typ) != nil && n.anc.kind == returnStmt && isInterface(sc.def.typ.ret[childPos(n)]) ==> n.typ == old(n.child[0].typ)
+
+// Logical operators, unary plus and conversions (run.go).
+//@ func land(n)
+//@   props C02
+//@   opt gen = true
+//@   opt safety = off
+//@   opt opaque-calls = *
+//@   opt opaque-havoc = none
+//@   ints wrap
+//@   exec (f) (ret)
+//@   exec-ensures conjunction: rvBool(operandOf(n, f)) == (old(rvBool(operandOf(n.child[0], f))) && old(rvBool(operandOf(n.child[1], f))))
+//@   exec-ensures [local:fnext] branch: ret == ite(rvBool(operandOf(n, f)), tnext, fnext)
+//@   exec-canary wrong-op: rvBool(operandOf(n, f)) == (old(rvBool(operandOf(n.child[0], f))) || old(rvBool(operandOf(n.child[1], f))))
+//@ func lor(n)
+//@   props C02
+//@   opt gen = true
+//@   opt safety = off
+//@   opt opaque-calls = *
+//@   opt opaque-havoc = none
+//@   ints wrap
+//@   exec (f) (ret)
+//@   exec-ensures disjunction: rvBool(operandOf(n, f)) == (old(rvBool(operandOf(n.child[0], f))) || old(rvBool(operandOf(n.child[1], f))))
+//@   exec-ensures [local:fnext] branch: ret == ite(rvBool(operandOf(n, f)), tnext, fnext)
+//@   exec-canary wrong-op: rvBool(operandOf(n, f)) == (old(rvBool(operandOf(n.child[0], f))) && old(rvBool(operandOf(n.child[1], f))))
+//@ func pos(n)
+//@   props C02
+//@   opt gen = true
+//@   opt safety = off
+//@   opt opaque-calls = *
+//@   opt opaque-havoc = none
+//@   ints wrap
+//@   exec (f) (ret)
+//@   exec-ensures identity: rvInt(operandOf(n, f)) == old(rvInt(operandOf(n.child[0], f))) && rvFloat(operandOf(n, f)) == old(rvFloat(operandOf(n.child[0], f))) && rvComplex(operandOf(n, f)) == old(rvComplex(operandOf(n.child[0], f)))
+//@   exec-ensures continues: ret == next
+//@   exec-canary wrong-op: rvInt(operandOf(n, f)) == 0 - old(rvInt(operandOf(n.child[0], f)))
+
+// convert (T(x) evaluated at run time): the destination receives reflect's conversion of the operand to
+// the frame type of the target type expression (child[0]) — the operand is child[1].
+//@ trusted func (t *itype) frameType() (r)
+//@   pure
+//@ trusted func (n *node) isNil() (r)
+//@   pure
+//@ trusted func isFuncSrc(t) (r)
+//@   pure
+//@ func convert(n)
+//@   props C02
+//@   opt gen = true
+//@   opt safety = off
+//@   opt loops = havoc
+//@   opt opaque-calls = *
+//@   opt opaque-havoc = none
+//@   ints wrap
+//@   exec (f) (ret)
+//@   exec-ensures continues: ret == next
+//@   exec-ensures [path:default;nopath:!fn==nil] delegates-to-reflect-with-the-operand-and-the-target-type: rvInt(operandOf(n, f)) == rvInt(rvConvertOp(operandOf(n.child[1], f), n.child[0].typ.frameType())) && rvFloat(operandOf(n, f)) == rvFloat(rvConvertOp(operandOf(n.child[1], f), n.child[0].typ.frameType())) && rvString(operandOf(n, f)) == rvString(rvConvertOp(operandOf(n.child[1], f), n.child[0].typ.frameType())) && rvIface(operandOf(n, f)) == rvIface(rvConvertOp(operandOf(n.child[1], f), n.child[0].typ.frameType()))
+//@   exec-ensures [path:c.isNil()] nil-converts-to-the-zero-value: rvInt(operandOf(n, f)) == 0
+//@   exec-canary [path:default;nopath:!fn==nil] unconverted: rvInt(operandOf(n, f)) == rvInt(operandOf(n.child[1], f))
